@@ -128,6 +128,10 @@ type Scenario struct {
 	// Zones: the clients are IPv6 link-local peers with the same address and port that differ only in the zone
 	// (interface) - still different clients
 	Zones bool `json:"zones,omitempty"`
+	// Pileup: 14 clients whose handlers each read one datagram, pause and end. 13 of them get one datagram; the last
+	// one gets eight at once, so the server loop is held up behind its full queue while the other 13 associations end
+	// (more than the loop's close-notification channel holds) - and then this one ends too.
+	Pileup bool `json:"pileup,omitempty"`
 }
 
 var sizeChoices = []int{9, 10, 64, 1200, 2048, 2049, 8999, 9000}
@@ -154,6 +158,9 @@ func genScenario(seed int64, i int) *Scenario {
 	}
 	s.Match = r.Intn(3) == 0
 	s.Zones = r.Intn(5) == 0 && s.Handler != "proxy"
+	if i%16 == 5 {
+		s.Pileup, s.Handler, s.Clients, s.EndAfter, s.DelayUs, s.BufSize, s.Match = true, []string{"rec", "closeself"}[r.Intn(2)], 14, 1, 30000, 9000, false
+	}
 	if r.Intn(3) == 0 {
 		s.Sizes[r.Intn(len(s.Sizes))] = boundarySizes[r.Intn(len(boundarySizes))]
 		if r.Intn(2) == 0 {
@@ -285,7 +292,20 @@ func runScenario(c *fw.Ctx, s *Scenario) {
 	r := fw.Rand(c.Seed, "c09sched", s.Index)
 	sent := map[[2]int]int{} // (client, seq) -> size
 	seqs := make([]int, s.Clients)
-	for b := 0; b < s.Bursts; b++ {
+	if s.Pileup {
+		for k := 0; k < s.Clients-1; k++ {
+			seqs[k]++
+			pc.Inject(makeDatagram(k, seqs[k], 32), addrs[k])
+			sent[[2]int{k, seqs[k]}] = 32
+		}
+		k := s.Clients - 1
+		for j := 0; j < 8; j++ {
+			seqs[k]++
+			pc.Inject(makeDatagram(k, seqs[k], 32), addrs[k])
+			sent[[2]int{k, seqs[k]}] = 32
+		}
+	}
+	for b := 0; b < s.Bursts && !s.Pileup; b++ {
 		for j := 0; j < s.PerBurst; j++ {
 			k := r.Intn(s.Clients)
 			size := s.Sizes[r.Intn(len(s.Sizes))]
